@@ -96,7 +96,7 @@ def run : Nat → Stmt → List Frame → Bool → σ → Option (Susp × σ)
       if evalC cond c s then run f b (.loop c b k :: st) false s else run f k st false s
   | f+1, .cont, _ :: st, fr, s => run f .cont st fr s
   | _+1, .cont, [], _, _ => none
-  | f+1, .ret, .callF k :: st, _, s => run f k st false s
+  | f+1, .ret, .callF k :: st, fr, s => run f k st fr s      -- returning executes nothing: freshness is kept
   | f+1, .ret, _ :: st, fr, s => run f .ret st fr s
   | _+1, .ret, [], _, _ => none
   | f+1, .call b k, st, fr, s => run f b (.callF k :: st) fr s
@@ -156,7 +156,7 @@ def unf : Nat → Stmt → List Frame → Bool → Option STree
         | some c' => do let y ← unf f k st false; pure (.ite c' x y)
   | f+1, .cont, _ :: st, fr => unf f .cont st fr
   | _+1, .cont, [], _ => none
-  | f+1, .ret, .callF k :: st, _ => unf f k st false
+  | f+1, .ret, .callF k :: st, fr => unf f k st fr
   | f+1, .ret, _ :: st, fr => unf f .ret st fr
   | _+1, .ret, [], _ => none
   | f+1, .call b k, st, fr => unf f b (.callF k :: st) fr
